@@ -86,6 +86,10 @@ func lookupLists(p *Prog, li *lookupInfo, f *ssa.Function) ([]planList, error) {
 			}
 			tbl, isW := li.Wrappers[c.Call.StaticCallee()]
 			if !isW {
+				// a token builder that is handed the wrapper and the role: h(inList, role, id)
+				if pl, ok := tokenBuilderCall(p, li, c, f); ok {
+					items = append(items, item{n, pl})
+				}
 				continue
 			}
 			if len(c.Call.Args) != 1 || c.Call.Args[0] != ssa.Value(f.Params[0]) {
@@ -133,6 +137,90 @@ func lookupLists(p *Prog, li *lookupInfo, f *ssa.Function) ([]planList, error) {
 		return nil, fmt.Errorf("%s consults no table", f.Name())
 	}
 	return out, nil
+}
+
+// tokenBuilderCall: c calls a helper h(…) that (a) calls one of its function parameters with one of its
+// string parameters, (b) returns a token whose value is the second result of that call and whose role is
+// one of its parameters (or a constant), nil otherwise. With the wrapper and the role passed at c this is
+// one (table, role) entry of the lookup list of f.
+func tokenBuilderCall(p *Prog, li *lookupInfo, c *ssa.Call, f *ssa.Function) (planList, bool) {
+	h := c.Call.StaticCallee()
+	if h == nil || !p.InModule(h) || len(h.Blocks) == 0 {
+		return planList{}, false
+	}
+	var dyn *ssa.Call
+	fnIdx, strIdx := -1, -1
+	for _, b := range h.Blocks {
+		for _, in := range b.Instrs {
+			d, ok := in.(*ssa.Call)
+			if !ok || d.Call.StaticCallee() != nil || len(d.Call.Args) != 1 {
+				continue
+			}
+			for i, prm := range h.Params {
+				if d.Call.Value == ssa.Value(prm) {
+					fnIdx = i
+				}
+				if d.Call.Args[0] == ssa.Value(prm) {
+					strIdx = i
+				}
+			}
+			if fnIdx >= 0 && strIdx >= 0 {
+				dyn = d
+			}
+		}
+	}
+	if dyn == nil || fnIdx >= len(c.Call.Args) || strIdx >= len(c.Call.Args) {
+		return planList{}, false
+	}
+	// the token literal: value = result #1 of the dynamic call, role = parameter or constant
+	role := ""
+	for _, b := range h.Blocks {
+		for _, in := range b.Instrs {
+			st, ok := in.(*ssa.Store)
+			if !ok {
+				continue
+			}
+			fa, ok := st.Addr.(*ssa.FieldAddr)
+			if !ok || fieldOf(fa).Field != "value" {
+				continue
+			}
+			ex, ok := st.Val.(*ssa.Extract)
+			if !ok || ex.Tuple != ssa.Value(dyn) {
+				continue
+			}
+			for _, r := range *fa.X.Referrers() {
+				fa2, ok := r.(*ssa.FieldAddr)
+				if !ok || fieldOf(fa2).Field != "role" {
+					continue
+				}
+				for _, rr := range *fa2.Referrers() {
+					s2, ok := rr.(*ssa.Store)
+					if !ok || s2.Addr != ssa.Value(fa2) {
+						continue
+					}
+					if k, ok := s2.Val.(*ssa.Const); ok && k.Value != nil {
+						role = k.Value.ExactString()
+					}
+					for i, prm := range h.Params {
+						if s2.Val == ssa.Value(prm) && i < len(c.Call.Args) {
+							if k, ok := c.Call.Args[i].(*ssa.Const); ok && k.Value != nil {
+								role = k.Value.ExactString()
+							}
+						}
+					}
+				}
+			}
+		}
+	}
+	w, ok := c.Call.Args[fnIdx].(*ssa.Function)
+	if !ok || role == "" || c.Call.Args[strIdx] != ssa.Value(f.Params[0]) {
+		return planList{}, false
+	}
+	tbl, isW := li.Wrappers[w]
+	if !isW || tbl == "?" {
+		return planList{}, false
+	}
+	return planList{tbl, role}, true
 }
 
 func extractPlan(p *Prog) (*scanPlan, error) {
